@@ -219,6 +219,79 @@ def wire_signature(b, seq):
     return found[0] if found else None
 
 
+def read_positions(seq):
+    """static byte ranges of the wire integers of a grammar: binder -> (input space, start, end, after_rewind, branch path).
+    Offsets are tracked through fixed-width elements only; arms of a branch / alternative start at the same offset.
+    branch path: tuple of (branching step, kind, arm index) leading to the read."""
+    out = {}
+
+    def walk(sq, space, pos, rew, bp):
+        for st in sq["steps"]:
+            k = st[0]
+            if k == "u":
+                w = st[2] // 8
+                out[st[1]] = (space, pos, None if pos is None else pos + w, rew, bp)
+                pos = None if pos is None else pos + w
+            elif k == "bytes":
+                pos = pos + st[2][1] if pos is not None and st[2][0] == "n" else None
+            elif k == "tag":
+                pos = None if pos is None else pos + len(st[1])
+            elif k == "rewind":
+                pos, rew = None, True
+            elif k == "guard":
+                pass
+            elif k == "peek":
+                walk(st[2], space, pos, rew, bp)
+            elif k == "sub":
+                walk(st[3], "in:" + st[1], 0, False, bp)
+            elif k in ("complete", "all_consuming", "cut"):
+                pos = walk(st[2], space, pos, rew, bp)
+            elif k == "opt":
+                walk(st[2], space, pos, rew, bp); pos = None
+            elif k == "cond":
+                walk(st[3], space, pos, rew, bp); pos = None
+            elif k in ("many0", "many1"):
+                walk(st[2], space, None, rew, bp); pos = None
+            elif k == "count":
+                walk(st[3], space, None, rew, bp); pos = None
+            elif k == "alt":
+                for i, s in enumerate(st[2]):
+                    walk(s, space, pos, rew, bp + ((st[1], "alt", i),))
+                pos = None
+            elif k == "ite":
+                e1, e2 = walk(st[3], space, pos, rew, bp + ((st[1], "x", 0),)), walk(st[4], space, pos, rew, bp + ((st[1], "x", 1),))
+                pos = e1 if e1 == e2 else None
+            elif k == "switch":
+                ends = [walk(s, space, pos, rew, bp + ((st[1], "x", i),)) for i, (_, s) in enumerate(st[3])] + [walk(st[4], space, pos, rew, bp + ((st[1], "x", -1),))]
+                pos = ends[0] if all(x == ends[0] for x in ends) else None
+            else:
+                pos = None
+        return pos
+    walk(seq, "top", 0, False, ())
+    return out
+
+
+def exclusive(p, q):
+    """two reads on different arms of an if / match never happen in the same run (arms of an alt are tried in turn: not exclusive)"""
+    for a, b in zip(p, q):
+        if a == b:
+            continue
+        return a[0] == b[0] and a[1] == "x"
+    return False
+
+
+def structural_vars(seq):
+    """binders that decide the structure: mentioned in a condition / dispatch, or used as a length or a count"""
+    out = set(cond_vars(seq))
+    def add(st, p):
+        if st[0] in ("bytes", "count"):
+            fv = set()
+            free_vars(st[2], fv)
+            out.update(x for x in fv if not x.startswith("?"))
+    walk_steps(seq, add)
+    return out
+
+
 def cond_vars(seq):
     """binders mentioned in any condition / dispatch scrutinee of the sequence"""
     out = set()
@@ -312,6 +385,22 @@ def run(tier, repo):
                 continue
             rp.check(sym[1] not in cv, "UNCONSTRAINED", key + "/no-condition", site(f), "%s is tested by a guard / verify / dispatch: some values are rejected or change the structure" % what,
                      found="binder %s appears in a condition" % sym[1], why_ok="mentioned in no condition")
+            # the same bytes read a second time (another alternative of an alt, a re-read after a rewind) by an element that
+            # decides the structure: the code point is tested through that other element
+            pos = read_positions(seq)
+            sv = structural_vars(seq)
+            me = pos.get(sym[1])
+            clash = []
+            if me is not None:
+                for ob, (sp, s0, e0, rw0, bp0) in pos.items():
+                    if ob == sym[1] or ob not in sv or sp != me[0] or exclusive(bp0, me[4]):
+                        continue
+                    if me[3] or rw0:
+                        clash.append(ob)  # alignment unknown after a re-read of consumed bytes
+                    elif None not in (s0, e0, me[1], me[2]) and s0 < me[2] and me[1] < e0:
+                        clash.append(ob)
+            rp.check(not clash, "UNCONSTRAINED", key + "/no-overlap", site(f), "the bytes of %s are also read by an element that decides the structure (another alternative / a re-read): some values are rejected or decoded differently" % what,
+                     found="binder %s overlaps %s" % (sym[1], clash), why_ok="its bytes are read by no structure-deciding element")
     # extension types that do not reach the Unknown fallback must be known (IANA) types: an unregistered type captured by a
     # dispatch arm is not preserved
     known = set(G.EXT_CONTENT)
